@@ -40,7 +40,16 @@ func vMergeCfg(prefix, idBase string, nDocs int, second bool, focus string) gCfg
 	var fields []gField
 	if focus == "stored" {
 		fields = []gField{{name: "f", terms: []string{"a"}, allTerm: true, fixFreq: true, store: true, multi: vParam("maxOcc", 1) > 1, maxOcc: vParam("maxOcc", 1)}}
-		if second {
+		if vParam("fieldVar", 0) == 1 {
+			// every input has its own field list: f alone, f and g, or f and h (lists that agree on a prefix, or
+			// that are equal for some inputs and different for one in between, decide byte copy versus re-encode)
+			switch vChoice(prefix+"xf", 3) {
+			case 1:
+				fields = append(fields, gField{name: "g", terms: []string{"a"}, allTerm: true, fixFreq: true, store: true})
+			case 2:
+				fields = append(fields, gField{name: "h", terms: []string{"a"}, allTerm: true, fixFreq: true, store: true})
+			}
+		} else if second {
 			fields = append(fields, gField{name: "g", terms: []string{"a"}, allTerm: true, fixFreq: true, store: true})
 		}
 		if vParam("always", 0) == 1 {
